@@ -942,6 +942,29 @@ def fixed_compositions(run: Run):
         if bad:
             run.fail("impl", "C18/fixed/declared-attribute-defaults-not-emitted", "a user-defined operator constructed without explicit attributes "
                      f"does not carry its declared defaults {want}: {bad}", {"seen": {k: str(v) for k, v in seen.items()}})
+    # a MISSING type hook yields an untyped Var WITH a warning (default level INITIAL) - whatever is known about the operator's inputs:
+    # concrete, of unknown shape, of unknown extent, or itself untyped
+    import spox._future as _future
+    from spox._exceptions import InferenceWarning
+    from harness.opaque_node import Opaque
+    for what, mk_in in (("concrete-input", lambda: argument(Tensor(np.float32, (2,)))), ("input-of-unknown-shape", lambda: argument(Tensor(np.float32))),
+                        ("input-of-unknown-extent", lambda: argument(Tensor(np.float32, (None, 3)))),
+                        ("input-from-runtime-reshape", lambda: op17.reshape(argument(Tensor(np.float32, (6,))), argument(Tensor(np.int64, (2,)))))):
+        n += 1
+        with _future.type_warning_level(_future.TypeWarningLevel.INITIAL):
+            with warnings.catch_warnings():
+                warnings.simplefilter("ignore")
+                xin = mk_in()
+            with warnings.catch_warnings(record=True) as caught:
+                warnings.simplefilter("always")
+                try:
+                    y = Opaque(Opaque.Attributes(), Opaque.Inputs(xin)).outputs.Y
+                    obs = (y.type is None, sum(1 for w in caught if issubclass(w.category, InferenceWarning) and "missing" in str(w.message)))
+                except Exception as e:  # noqa: BLE001
+                    obs = f"{type(e).__name__}: {str(e)[:120]}"
+        if obs != (True, 1):
+            run.fail("impl", f"C18/fixed/missing-type-hook/{what}", "an operator without type hook must yield an untyped Var with exactly one "
+                     f"'output type is missing' warning at level INITIAL; observed (untyped, warnings) = {obs}", {"input": what, "observed": str(obs)})
     # variadic input list modified after the call
     n += 1
     with warnings.catch_warnings():
